@@ -4,10 +4,9 @@
    [layers_wf g]: the layers hold distinct, in-range nodes; [sizes_ok s g]: NodeSpacing and widths non-negative.
    Within a band: for positions i < j, x_i + w_i + NodeSpacing <= x_j. Between bands: bands are stacked with
    y_(k+1) = y_k + (tallest node of band k) + LayerSpacing, so rectangles of different bands are disjoint.
-   NetworkSimplex positioner: proved CONDITIONALLY on the feasibility of the auxiliary layering returned by
-   network simplex (C04_ns_partial); that feasibility is proved for the initial tree and one pivot step under the
-   stated hypotheses on the lim/low numbering (Proofs/OptFeasible.v) and checked per instance by the
-   correspondence. *)
+   NetworkSimplex positioner: unconditional (Proofs/NSPositioner.v): the auxiliary graph is well-formed and acyclic,
+   network simplex returns a feasible layering of it, so consecutive nodes are at least ceil(w/2 + w'/2 + spacing)
+   apart between centres (C04_ns_positioner), also end to end (C04_component_end_to_end_all_positioners). *)
 From Coq Require Import List QArith.
 From Autog Require Import Graph Phase2 Phase4 Layout Check Positioners SinkColoringProofs Shift.
 Import ListNotations.
@@ -110,3 +109,23 @@ Theorem C04_layout_components_apart : forall (A : Type) (eqA : A -> A -> bool), 
         on_x a + on_w a + o_node_spacing o <= on_x b)).
 Proof. exact G8_layout_separated. Qed.
 Print Assumptions C04_layout_components_apart.
+
+From Autog Require Import NSPositioner.
+
+(* the NetworkSimplex positioner, unconditionally: whenever it returns, nodes of a band keep NodeSpacing *)
+Theorem C04_ns_positioner : forall th f s g g' l i j a b,
+  exec_ns_positioner th f s g = Ok g' -> nsp_wf g -> sizes_ok s g ->
+  In l (g_L g) -> (i < j)%nat -> nth_error (l_nodes l) i = Some a -> nth_error (l_nodes l) j = Some b ->
+  nX g' a + nW g a + s <= nX g' b.
+Proof. exact ns_positioner_no_overlap_unconditional. Qed.
+Print Assumptions C04_ns_positioner.
+
+(* end to end for all four size-aware positioners (options_ok' admits NsPositioner as well) *)
+Theorem C04_component_end_to_end_all_positioners : forall o g g' x,
+  component_input g -> options_ok' o -> sizes_nonneg g -> spacing_nonneg o ->
+  layout_component o g = Ok (g', x) -> W3_statement o g'.
+Proof.
+  intros o g g' x CI OK SZ SP H.
+  exact (W3_no_overlap' o g g' x CI OK (NSBridge.ns_premise_holds o g CI) SZ SP H).
+Qed.
+Print Assumptions C04_component_end_to_end_all_positioners.
